@@ -141,6 +141,25 @@ class NumpyToken:
         self._arr = arr
 
 
+class RangeValues:
+    """values of a default integer index 0..n-1 (n possibly symbolic): supports `x in values`"""
+
+    def __init__(self, n):
+        self.n = n
+
+    def __contains__(self, x):
+        if isinstance(x, bool) or not isinstance(x, (int, SymInt)):
+            return False
+        if isinstance(x, int) and isinstance(self.n, int):
+            return 0 <= x < self.n
+        return bool(SymBool(z3.And(_sz(x) >= 0, _sz(x) < _sz(self.n))))
+
+    def __iter__(self):
+        if isinstance(self.n, int):
+            return iter(range(self.n))
+        raise EngineUnsupported("iteration over a symbolic index")
+
+
 class EagerEvaluation(Exception):
     pass
 
@@ -202,13 +221,20 @@ class MArr:
 
     @property
     def data(self):
-        return DaskToken(self) if self.dask is not None else NumpyToken(self)
+        if self.dask is not None:
+            return DaskToken(self)
+        a = self
+        dims = self.dims
+        return NArr(tuple(self.sizes[d] for d in dims), lambda p: a._elem({d: p[k] for k, d in enumerate(dims)}),
+                    labels=list(dims))
 
     @property
     def values(self):
         if self.dask is not None:
             DaskToken(self)._trap()
-        return NumpyToken(self)
+        if self.ndim == 1 and isinstance(self.tok, tuple) and self.tok and self.tok[0] == "range":
+            return RangeValues(self.sizes[self.dims[0]])
+        return self.data
 
     def compute(self, **kw):
         DaskToken(self)._trap()
@@ -237,6 +263,9 @@ class MArr:
                             tok=("range", k))
             raise KeyError(k)
         raise EngineUnsupported(f"MArr.__getitem__({k!r})")
+
+    def __setitem__(self, k, v):
+        self.log.append(("setitem", k))
 
     def __len__(self):
         n = self.sizes[self.dims[0]]
@@ -302,6 +331,11 @@ class MArr:
                         raise ValueError(f"coordinate {k} has dimension {d} not on the array")
                 c = MArr(v.dims, v.sizes, v._elem, name=k, attrs=v._attrs, tok=v.tok, coords=None)
                 out._d[k] = c
+            elif isinstance(v, NArr) and v.ndim == 1:
+                if k in self.sizes and not size_eq(v.shape[0], self.sizes[k]):
+                    raise ValueError(f"conflicting sizes for dimension {k!r}")
+                out._d[k] = MArr((k,), {k: v.shape[0]}, (lambda v, k: lambda idx: v._elem((idx[k],)))(v, k), name=k,
+                                 tok=("from-array", next(_uid)))
             else:
                 # raw values (np.full_like(..., nan) in padding): dimension coordinate named k
                 out._d[k] = MArr((k,), {k: self.sizes[k]}, lambda idx: z3.RealVal(0), name=k,
@@ -682,8 +716,31 @@ def generic_range(n):
     return range(n)
 
 
+class _DAMeta(type):
+    def __instancecheck__(cls, obj):
+        return isinstance(obj, MArr)
+
+
+class DataArrayModel(metaclass=_DAMeta):
+    """xr.DataArray as a name: isinstance() accepts every MArr; calling it builds an MArr from a
+    1-D NArr (the only constructor use in xgcm: transform._parse_target)"""
+
+    def __new__(cls, data=None, coords=None, dims=None, name=None, attrs=None):
+        if isinstance(data, NArr) and data.ndim == 1 and dims is not None and len(dims) == 1:
+            d = list(dims)[0]
+            arr = MArr((d,), {d: data.shape[0]}, lambda idx: data._elem((idx[d],)), name=name, attrs=attrs)
+            if coords:
+                for k, v in dict(coords).items():
+                    if isinstance(v, NArr):
+                        arr.coords._d[k] = MArr((d,), {d: v.shape[0]}, (lambda v: lambda idx: v._elem((idx[d],)))(v), name=k,
+                                                tok=("from-array", id(v)))
+            arr.built_from = data
+            return arr
+        raise EngineUnsupported("xr.DataArray(...) constructor form not modelled")
+
+
 class XRModel:
-    DataArray = MArr
+    DataArray = DataArrayModel
 
     @staticmethod
     def concat(objs, dim, data_vars=None, coords=None, compat=None, join=None, **kw):
@@ -853,6 +910,7 @@ class NArr:
 class NPModel:
     """model of the numpy functions used inside xgcm.gridops (bound to gridops.np)"""
     nan = float("nan")
+    ndarray = NArr
 
     @staticmethod
     def stack(arrs, axis=0):
